@@ -15,15 +15,23 @@ crash-after = `callOk` then `start`).
 `Reach s0 sys` = `sys` is reachable from the store `s0`. The theorems hold for every
 reachable state, i.e. over ALL schedules, fault plans, cache lags and histories.
 
-XR reads are fresh in this model (`getXR` reads the store): hypothesis `xrReadFresh`
-of DESIGN.md 6/C06. The real controller reads XRs through the same cache as the claim;
-with a stale XR read and another claim's controller binding the XR in between (both
-outside the property's quantifier) the server-side syncer's forced apply can rebind it.
+All reads go through the cache, as in the real controller (`engine.GetCached()`): the claim
+read may return ANY version the claim ever had (`pick`), and every XR read — the Get in
+Reconcile, the Get inside the client-side Apply, the availability Gets of the name
+generator — may return ANY earlier state of that name, including "absent" (`xpick`). So the
+hypothesis `xrReadFresh` of DESIGN.md 6/C06 is NOT needed in the environment the property
+fixes: an XR bound to another claim has been so in every state its name ever had (nobody but
+this controller creates XRs or sets a claimRef, and it only writes its own), hence a stale
+read that shows "absent / unbound / ours" still proves "not foreign now" (`Inv.xfor`,
+`not_foreign_of_hist`). What remains outside is an environment in which ANOTHER claim's
+controller binds XRs: there, between any read and the forced apply of the server-side
+syncer, the XR can become foreign (recorded limit, outside the property's quantifier).
 
 `Init s0` (Xp/Proofs/C06Run.lean) = admissible initial store: empty ghost trace; the
 claim's version history is well formed (strictly increasing rv, set-once reference, the
 stored version is the newest); an XR already bound to this claim is one the claim
-references or referenced. `Init.single` builds it from a claim with a single version.
+references or referenced; XR state histories are consistent (`xcur`, `xfor`).
+`Init.single` builds it from a claim with a single version and XRs without history.
 -/
 namespace Xp.C06
 
@@ -132,7 +140,8 @@ theorem ref_before_create {s0 : St} (h0 : Init s0) {sys : Sys} (hr : Reach s0 sy
 /-! ### no_hijack -/
 
 /-- No write and no delete of the claim controller ever takes effect on an XR whose stored
-`spec.claimRef` names another claim (in the environment the property fixes, XR reads fresh). -/
+`spec.claimRef` names another claim (in the environment the property fixes; XR reads may be
+stale). -/
 theorem no_hijack {s0 : St} (h0 : Init s0) {sys : Sys} (hr : Reach s0 sys) (n : Name) :
     Ev.xrWrite n true ∉ sys.st.trace := by
   have hi := (reach_inv h0.inv hr).1
